@@ -55,7 +55,7 @@ use tower::ServiceExt;
 /// `false` = they are enumerated like every other pair (use this once the emitters are fixed).
 /// Can be overridden at run time with the environment variable `C06_EXCLUDE_KNOWN=0|1`.
 /// Pinned `Explicit` cases (replays/known, replays/regress) are never filtered.
-const EXCLUDE_KNOWN_PUBLISH_BEFORE_RECORD: bool = true;
+const EXCLUDE_KNOWN_PUBLISH_BEFORE_RECORD: bool = false;
 
 fn exclude_known() -> bool {
     match std::env::var("C06_EXCLUDE_KNOWN").ok().as_deref() {
